@@ -4,15 +4,17 @@
 extern unsigned long model_g_map, model_g_set;
 extern unsigned long model_last_map, model_last_set, model_last2_map, model_last2_set, model_last3_map, model_last3_set;
 extern unsigned long model_pick_map, model_pick_set, model_pick2_map, model_pick2_set, model_pick3_map, model_pick3_set;
+extern unsigned long model_hint_map, model_hint_set;
 #define NONE (~0ul)
 #define SKIP (~0ul - 1)
 /* ghost globals a function doing map (set) lookups writes: part of its assigns clause */
-#define MODEL_MAP_GHOSTS model_last_map, model_last2_map, model_last3_map, model_pick_map, model_pick2_map, model_pick3_map
-#define MODEL_SET_GHOSTS model_last_set, model_last2_set, model_last3_set, model_pick_set, model_pick2_set, model_pick3_set
+#define MODEL_MAP_GHOSTS model_last_map, model_last2_map, model_last3_map, model_pick_map, model_pick2_map, model_pick3_map, model_hint_map
+#define MODEL_SET_GHOSTS model_last_set, model_last2_set, model_last3_set, model_pick_set, model_pick2_set, model_pick3_set, model_hint_set
 #ifdef MODEL_GHOST_DEFINE
 unsigned long model_g_map, model_g_set;
 unsigned long model_last_map, model_last_set, model_last2_map, model_last2_set, model_last3_map, model_last3_set;
 unsigned long model_pick_map, model_pick_set, model_pick2_map, model_pick2_set, model_pick3_map, model_pick3_set;
+unsigned long model_hint_map, model_hint_set;
 unsigned long nondet_ulong(void);
 static void model_ghost_havoc(void)
 {
@@ -21,6 +23,7 @@ static void model_ghost_havoc(void)
   model_last3_map = nondet_ulong(); model_last3_set = nondet_ulong();
   model_pick_map = nondet_ulong(); model_pick_set = nondet_ulong(); model_pick2_map = nondet_ulong(); model_pick2_set = nondet_ulong();
   model_pick3_map = nondet_ulong(); model_pick3_set = nondet_ulong();
+  model_hint_map = NONE; model_hint_set = NONE;
 }
 #endif
 #endif
